@@ -121,11 +121,20 @@ def run(ctx):
         else:
             ctx.ok("R17.c", init, init.node, "all %d slots assigned on every path" % len(slots))
         gs, ss = ctx.repo.method(cq, "__getstate__"), ctx.repo.method(cq, "__setstate__")
-        ok = "self.__slots__" in norm(gs.node) and "getattr(self, slot)" in norm(gs.node) and "setattr(self, k, v)" in norm(ss.node)
+        def iterates_slots(fn, attr):
+            for comp in ast.walk(fn.node):
+                if isinstance(comp, (ast.DictComp, ast.For)):
+                    it = comp.generators[0].iter if isinstance(comp, ast.DictComp) else comp.iter
+                    if attr in norm(it):
+                        return True
+            return False
+        ok = iterates_slots(gs, "__slots__") and any(isinstance(c, ast.Call) and norm(c.func) == "getattr" for c in ast.walk(gs.node)) \
+            and any(isinstance(c, ast.Call) and norm(c.func) == "setattr" and norm(c.args[0]) == ss.params[0] for c in ast.walk(ss.node))
         (ctx.ok if ok else ctx.fail)("R17.c", gs, gs.node, "getstate reads every slot, setstate restores every item" if ok else
                                      "%s getstate/setstate no longer cover every slot" % cq.rsplit(".", 1)[-1])
     pg = ctx.repo.method(P + "Parameter", "__getstate__")
-    ok = "_all_slots_" in norm(pg.node) and "getattr(self, slot)" in norm(pg.node)
+    ok = any(isinstance(comp, (ast.DictComp, ast.For)) and "_all_slots_" in norm(comp.generators[0].iter if isinstance(comp, ast.DictComp) else comp.iter)
+             for comp in ast.walk(pg.node)) and any(isinstance(c, ast.Call) and norm(c.func) == "getattr" for c in ast.walk(pg.node))
     (ctx.ok if ok else ctx.fail)("R17.c", pg, pg.node, "Parameter.__getstate__ covers _all_slots_" if ok else "Parameter.__getstate__ no longer iterates _all_slots_ (slots of subclasses are lost in copies)")
 
     # ---------------------------------------------------------------- R17.d
